@@ -262,6 +262,99 @@ func c18EvalOption(c *Ctx, cs Case) {
 	}
 }
 
+// c18EvalOptionSeq decodes SEVERAL load options, in order, into ONE EFILoadOption value - the way a
+// caller that walks BootOrder with one variable does - and keeps every successfully decoded result the
+// way such a caller keeps it (a copy of the struct, which shares the FilePath slice, and the FilePath
+// slice itself). Members may be incomplete options on which the decoder returns an error. At the end
+// every kept result must still read exactly as it read when it was decoded, and that reading must be
+// the one a fresh value (and the model, which is a function of the bytes alone) gives for its bytes:
+// what an option decodes to depends on its bytes only, not on what was decoded before or after.
+func c18EvalOptionSeq(c *Ctx, cs Case) {
+	var opts [][]byte
+	for _, h := range strings.Split(cs.S("options"), ",") {
+		opts = append(opts, unhx(h))
+	}
+	type keptT struct {
+		i    int
+		lo   device.EFILoadOption
+		path []device.EFIDevicePaths
+		then string
+	}
+	var keeps []keptT
+	var one device.EFILoadOption // the one value every member is decoded into
+	outcome := make([]string, len(opts))
+	panicked, pmsg := safely(func() {
+		for i, b := range opts {
+			if err := one.Unmarshal(bytes.NewBuffer(append([]byte{}, b...))); err != nil {
+				outcome[i] = "err"
+				continue
+			}
+			outcome[i] = "ok"
+			keeps = append(keeps, keptT{i, one, one.FilePath, "ok " + goLoadOptionStr(&one)})
+		}
+	})
+	c.Count(cs.Key(), len(opts) > 1, fmt.Sprintf("option-seq/%s/len%d/%s", cs.S("class"), len(opts), strings.Join(outcome, "-")))
+	if len(cs.S("options")) < 400 {
+		c.Sample(cs)
+	}
+	if panicked {
+		c.Fail(Failure{Kind: "property", What: "decoding a sequence of load options into one value panicked: " + pmsg, Case: cs})
+		return
+	}
+	for _, k := range keeps {
+		// the same bytes into a fresh value, and through the model
+		var fresh device.EFILoadOption
+		freshStr := "err"
+		if pan, _ := safely(func() {
+			if fresh.Unmarshal(bytes.NewBuffer(append([]byte{}, opts[k.i]...))) == nil {
+				freshStr = "ok " + goLoadOptionStr(&fresh)
+			}
+		}); pan {
+			freshStr = "panic"
+		}
+		c.Trace()
+		if m := lowerTexts(c.Drv.Ask("boot.option", hx(opts[k.i]))); m != k.then {
+			c.Fail(Failure{Kind: "tie", What: fmt.Sprintf("EFILoadOption.Unmarshal of member %d into a value decoded into before: model and implementation disagree", k.i), Case: cs, Model: clip(m), Go: clip(k.then)})
+		}
+		if k.then != freshStr {
+			c.Fail(Failure{Kind: "property", What: fmt.Sprintf("member %d of the sequence decodes differently into an EFILoadOption value that was decoded into before than into a fresh value", k.i), Case: cs, Go: clip(k.then), Spec: clip(freshStr)})
+			continue
+		}
+		now := "ok " + goLoadOptionStr(&k.lo)
+		pathNow := nodesStr(k.path)
+		if now != k.then || pathNow != nodesStr(fresh.FilePath) {
+			c.Fail(Failure{Kind: "property", What: fmt.Sprintf("the load option decoded from member %d and kept by the caller no longer reads as decoded after the later members (outcomes %s) were decoded into the same EFILoadOption value", k.i, strings.Join(outcome[k.i+1:], ",")), Case: cs,
+				Go: clip("kept struct now: " + now + " ; kept FilePath now: " + pathNow), Spec: clip(k.then)})
+		}
+	}
+}
+
+// emitOptionSeq evaluates a sequence; a failing one is reduced to the shortest failing contiguous pair
+// / sub-sequence that still fails before it is recorded.
+func emitOptionSeq(c *Ctx, class string, opts [][]byte) {
+	mk := func(o [][]byte) Case {
+		hs := make([]string, len(o))
+		for i, b := range o {
+			hs[i] = hx(b)
+		}
+		return Case{"op": "option-seq", "class": class, "options": strings.Join(hs, ",")}
+	}
+	n0 := c.NFailures()
+	c18EvalOptionSeq(c, mk(opts))
+	if c.NFailures() == n0 || len(opts) <= 2 {
+		return
+	}
+	for i := 0; i < len(opts); i++ {
+		for j := i + 1; j < len(opts); j++ {
+			pair := [][]byte{opts[i], opts[j]}
+			if fs := c.Probe(func(p *Ctx) { c18EvalOptionSeq(p, mk(pair)) }); len(fs) > 0 {
+				c.ReplaceFailuresFrom(n0, fs)
+				return
+			}
+		}
+	}
+}
+
 func nodesStr(ps []device.EFIDevicePaths) string {
 	var xs []string
 	for _, p := range ps {
@@ -288,6 +381,8 @@ func c18Eval(c *Ctx, cs Case) {
 		c18EvalOrder(c, cs)
 	case "option":
 		c18EvalOption(c, cs)
+	case "option-seq":
+		c18EvalOptionSeq(c, cs)
 	}
 }
 
@@ -407,12 +502,49 @@ func c18Gen(c *Ctx) {
 	for i := 0; i < c.N(500, 20000) && c.NFailures() < 8; i++ {
 		c18EvalOption(c, genOption(c))
 	}
+	// sequences of 2..5 load options decoded into ONE EFILoadOption value, every result kept: captured and
+	// generated options in random order (so that a later member has fewer, as many and more nodes than
+	// an earlier one, and the same option occurs twice), some members cut inside their device path list
+	// or emptied, on which the decoder returns an error
+	var pool [][]byte
+	for _, m := range ms {
+		if b, err := os.ReadFile(m); err == nil && len(b) > 4 {
+			pool = append(pool, b[4:])
+		}
+	}
+	nCaptured := len(pool)
+	for i := 0; i < 24+nCaptured; i++ {
+		g := genOption(c)
+		if r := c.Drv.Ask("boot.encode", fmt.Sprint(g.I("attrs")), fmt.Sprint(g.I("len")), g.S("desc"), g.S("nodes")); r != "bad-op" {
+			pool = append(pool, unhx(r))
+		}
+	}
+	for i := 0; i < c.N(300, 6000) && c.NFailures() < 8 && len(pool) > 0; i++ {
+		n := 2 + c.Rng.Intn(4)
+		seq := make([][]byte, n)
+		class := "complete"
+		for j := range seq {
+			b := pool[c.Rng.Intn(len(pool))]
+			if j > 0 && c.Rng.Intn(4) == 0 {
+				class = "with-failing-members"
+				off := loadOptionPathOffset(b)
+				switch {
+				case c.Rng.Intn(6) == 0 || off < 0 || off >= len(b)-1:
+					b = b[:c.Rng.Intn(6)] // not even the fixed header
+				default:
+					b = b[:off+c.Rng.Intn(len(b)-off)] // the description is complete, the path list is not
+				}
+			}
+			seq[j] = b
+		}
+		emitOptionSeq(c, class, seq)
+	}
 }
 
 func init() {
 	register("C18", &PropDef{
-		Rule:   "all 65536 boot numbers (exhaustive), each resolved through GetBootEntry on an in-memory store holding the firmware-named variable; boot orders of 0..64 entries; the captured Boot#### variables of tests/data/boot; generated load options of 0..5 nodes over PCI, ACPI, hard-drive (signature types GPT, MBR, none and arbitrary, with an equal or a different partition-format byte; partition numbers incl. 0), file-path (ASCII, non-BMP, empty), firmware-file and USB nodes with arbitrary field values, five fixed descriptions and random descriptions (Latin-1, code units with a zero low byte such as U+0100 and U+4E00, other BMP, non-BMP), encoded by the independent Spec encoder. Non-trivial: a non-empty order / an option longer than the minimal one; distinct = distinct cases.",
-		Assume: []string{"load options handed to the in-process decoder are complete (truncated ones end the process on the unrepaired tree and are C14's domain)"},
+		Rule:   "all 65536 boot numbers (exhaustive), each resolved through GetBootEntry on an in-memory store holding the firmware-named variable; boot orders of 0..64 entries; the captured Boot#### variables of tests/data/boot; generated load options of 0..5 nodes over PCI, ACPI, hard-drive (signature types GPT, MBR, none and arbitrary, with an equal or a different partition-format byte; partition numbers incl. 0), file-path (ASCII, non-BMP, empty), firmware-file and USB nodes with arbitrary field values, five fixed descriptions and random descriptions (Latin-1, code units with a zero low byte such as U+0100 and U+4E00, other BMP, non-BMP), encoded by the independent Spec encoder; sequences of 2..5 captured and generated load options decoded one after the other into ONE EFILoadOption value (300 sequences [thorough: 6000]; a quarter of the later members cut inside the device path list or down to 0..5 bytes, so that their decode returns an error) with every decoded result kept by the caller (struct copy and FilePath slice): each result must equal the decode of the same bytes into a fresh value and the model's, and every kept result must still read the same after all later decodes, failed ones included. Non-trivial: a non-empty order / an option longer than the minimal one / a sequence of at least two members; distinct = distinct cases.",
+		Assume: []string{"load options handed to the in-process decoder are complete (truncated ones end the process on the unrepaired tree and are C14's domain), except the failing members of the decode sequences, which are cut inside the description / device path list and must come back as an error"},
 		Eval:   c18Eval, Gen: c18Gen,
 	})
 }
